@@ -141,6 +141,38 @@ def _inputs_name(lfi) -> str:
     return _INPUTS_CACHE[id(lfi.node)]
 
 
+def _enum_local_from_string(fn: ast.FunctionDef, local: str, param: str, enum: str) -> bool:
+    """every binding of `local` in fn is `<enum>.<M>` inside the branch taken when `param == <enum>.<M>.name` (same M), >= 2 members"""
+    members = 0
+
+    def walk(stmts, guard_members):
+        nonlocal members
+        ok = True
+        for s_ in stmts:
+            if isinstance(s_, ast.If):
+                t = s_.test
+                m = None
+                if isinstance(t, ast.Compare) and len(t.ops) == 1 and isinstance(t.ops[0], ast.Eq):
+                    l, r = ast.unparse(t.left), ast.unparse(t.comparators[0])
+                    for a, b in ((l, r), (r, l)):
+                        if a == param and b.startswith(enum + ".") and b.endswith(".name"):
+                            m = b[len(enum) + 1:-5]
+                ok = walk(s_.body, guard_members + ([m] if m else [])) and ok
+                ok = walk(s_.orelse, guard_members) and ok
+            elif isinstance(s_, ast.Assign) and any(isinstance(t_, ast.Name) and t_.id == local for t_ in s_.targets):
+                v = attr_chain(s_.value) or ""
+                if v.startswith(enum + ".") and guard_members and v == f"{enum}.{guard_members[-1]}":
+                    members += 1
+                else:
+                    ok = False
+            elif isinstance(s_, (ast.For, ast.While, ast.With, ast.Try)):
+                for fld in ("body", "orelse", "finalbody"):
+                    ok = walk(getattr(s_, fld, []) or [], guard_members) and ok
+        return ok
+
+    return walk(fn.body, []) and members >= 2
+
+
 def schema_props(prog: Program, name: str):
     s = prog.schemas.get(name)
     if s is None:
@@ -861,8 +893,15 @@ def _check_roundtrip(prog: Program, res: Result, sec_tabs):
             if not (r and r[0] == "class"):
                 continue
             bi = bind_args(prog.method(r[1].qualname, "__init__"), c)
-            want = {"v_flow": "flow_rate", "flow_type": "flow_type"}.get(cparam)
-            if want is None or ast.unparse(bi.get(cparam)) != want:
+            got_arg = bi.get(cparam)
+            if cparam == "v_flow":
+                if got_arg is None or ast.unparse(got_arg) != "flow_rate":
+                    okc = False
+            elif cparam == "flow_type":
+                # a local that is FlowConfigType.<M> exactly when the string parameter equals FlowConfigType.<M>.name
+                if not (isinstance(got_arg, ast.Name) and _enum_local_from_string(sd.node, got_arg.id, "flow_type_str", "FlowConfigType")):
+                    okc = False
+            else:
                 okc = False
         sparam = {"v_flow": "flow_rate", "flow_type": "flow_type_str"}.get(cparam)
         okl = sparam in lbd and lbd[sparam][1] == key
